@@ -221,8 +221,39 @@ class C05(Prop):
             s = Sched(vec, [self.target])
             stores = self._mk_stores(specs, setatp)
             glog = []
+            lock_types = (type(threading.Lock()), type(threading.RLock()))
             for j, st in enumerate(stores):
-                st._lock = RecLock(s, j, st, glog, self._snap)
+                # every lock object reachable from the store (attributes, and values of dict/list attributes) becomes
+                # scheduler-aware, identity preserved, so that code using further locks cannot block the scheduler;
+                # only `_lock` (the lock the model knows) is numbered j, the others get ids >= 1000
+                seen = {}
+
+                def conv(o, name):
+                    if isinstance(o, lock_types):
+                        if id(o) not in seen:
+                            primary = name == "_lock"
+                            lk = RecLock(s, j if primary else 1000 + 100 * j + len(seen), st, glog, self._snap)
+                            lk.reentrant = isinstance(o, lock_types[1])
+                            seen[id(o)] = lk
+                        return seen[id(o)]
+                    return None
+                primary_obj = getattr(st, "_lock", None)
+                if primary_obj is not None:
+                    conv(primary_obj, "_lock")
+                for k, v in list(vars(st).items()):
+                    r = conv(v, k)
+                    if r is not None:
+                        setattr(st, k, r)
+                    elif isinstance(v, dict):
+                        for kk, vv in list(v.items()):
+                            r = conv(vv, k)
+                            if r is not None:
+                                v[kk] = r
+                    elif isinstance(v, list):
+                        for ii, vv in enumerate(v):
+                            r = conv(vv, k)
+                            if r is not None:
+                                v[ii] = r
             rets = [[None] * len(p) for p in threads]
 
             def mk(t):
@@ -230,7 +261,7 @@ class C05(Prop):
                     for i, c in enumerate(threads[t]):
                         rets[t][i] = self._do(stores, c)
                 return body
-            finished = s.run([mk(t) for t in range(nt)], join_timeout=20)
+            finished = s.run([mk(t) for t in range(nt)], join_timeout=4)
             raised = [r[1] for r in (s.results or []) if r and r[0] == "raise"]
             return s, stores, glog, rets, (s.deadlock or not finished), raised
         s, stores, glog, rets, deadlock, raised = execute()
@@ -249,7 +280,7 @@ class C05(Prop):
         acts = []
         per_thread_pos = {t: [0, 0] for t in range(nt)}     # [call index, acquisitions seen within the call]
         for ev in glog:
-            if ev[0] != "acq":
+            if ev[0] != "acq" or ev[2] >= 1000:
                 continue
             t, sid, snap = ev[1], ev[2], ev[3]
             ci, k = per_thread_pos[t]
